@@ -306,6 +306,7 @@ class Thread:
         self.arr_h = []       # (model pc, seq) arrivals of the handle owner that concern this thread
         self.arr_t = []       # arrivals of the thread itself
         self.pk = None        # how a panicking closure panicked
+        self.mmap_rec = None
 
 
 def executor_thread(threads, order):
